@@ -13,30 +13,43 @@ open Desync
 
 def metaOf (f : FileRec) : Meta := ⟨f.uid, f.gid, f.mode, f.mtime, f.xattrs⟩
 
-/-- attribute stamp `setPerms` leaves on a dir/file/device node -/
-def stampOf (o : Opts) (f : FileRec) : Option Nat :=
-  if o.noSameOwner && o.noSamePermissions then none
-  else some (attrOf ⟨f.uid, f.gid, f.mode, f.mtime, f.xattrs⟩)
+/-- attributes `setPerms` leaves on a freshly created directory / regular file / device node: the archived
+    owner and extended attributes unless `noSameOwner`, the archived permission, set-id and sticky bits
+    unless `noSamePermissions` — all twelve bits, because `chown` comes before `chmod` -/
+def attrOfRec (o : Opts) (f : FileRec) : Attr :=
+  { owner := if o.noSameOwner then none else some (f.uid.toNat, f.gid.toNat)
+    mode := if o.noSamePermissions then none else some (f.mode.toNat % 4096)
+    xattrs := if o.noSameOwner then [] else f.xattrs }
 
-/-- attribute stamp on a symbolic link (`lchown` + `lsetxattr` only) -/
-def linkStampOf (o : Opts) (f : FileRec) : Option Nat :=
-  if o.noSameOwner then none else some (attrOf ⟨f.uid, f.gid, f.mode, f.mtime, f.xattrs⟩)
+/-- attributes on a freshly created symbolic link (`lchown` + `lsetxattr` only) -/
+def linkAttrOfRec (o : Opts) (f : FileRec) : Attr :=
+  { owner := if o.noSameOwner then none else some (f.uid.toNat, f.gid.toNat)
+    mode := none
+    xattrs := if o.noSameOwner then [] else f.xattrs }
 
 /-- the explicitly set modification time: the archived one, unless it is 0 (then `LocalFS` sets none
     and the kernel's "now" stays) -/
 def mtimeOf (f : FileRec) : Option Nat := if f.mtime = 0 then none else some f.mtime.toNat
 
-theorem stampOf_eq (o : Opts) (f : FileRec) : stampOf o f = stampM o (metaOf f) := rfl
-theorem linkStampOf_eq (o : Opts) (f : FileRec) : linkStampOf o f = linkStampM o (metaOf f) := rfl
+theorem attrOfRec_eq (o : Opts) (f : FileRec) : attrOfRec o f = attrM o (metaOf f) := rfl
+theorem linkAttrOfRec_eq (o : Opts) (f : FileRec) : linkAttrOfRec o f = linkAttrM o (metaOf f) := rfl
 theorem mtimeOf_eq (f : FileRec) : mtimeOf f = mtimeM (metaOf f) := rfl
+
+/-- `user.*` extended attributes cannot be set on symbolic links and device nodes (EPERM): when owner and
+    extended attributes are restored, a record of one of these kinds must carry none, or `UnTar` fails -/
+def XattrsFit (o : Opts) (f : FileRec) : Prop :=
+  o.noSameOwner = false → f.kind = .symlink ∨ f.kind = .device → NoUserXattr f.xattrs
+
+instance (o : Opts) (f : FileRec) : Decidable (XattrsFit o f) := by
+  unfold XattrsFit NoUserXattr; infer_instance
 
 /-- the object a record becomes -/
 def objOf (o : Opts) (f : FileRec) : Obj :=
   match f.kind with
-  | .dir => .dir (stampOf o f) (mtimeOf f)
-  | .reg => .file f.data (stampOf o f) (mtimeOf f)
-  | .symlink => .symlink f.target (linkStampOf o f)
-  | _ => .dev f.major.toNat f.minor.toNat (stampOf o f) (mtimeOf f)
+  | .dir => .dir (attrOfRec o f) (mtimeOf f)
+  | .reg => .file f.data (attrOfRec o f) (mtimeOf f)
+  | .symlink => .symlink f.target (linkAttrOfRec o f)
+  | _ => .dev f.major.toNat f.minor.toNat (attrOfRec o f) (mtimeOf f)
 
 /-! ### paths -/
 
@@ -88,7 +101,7 @@ mutual
 def Tree.lay (fin : Bool) (o : Opts) (path : RPath) : Tree → List (RPath × Obj)
   | .leaf f => [(path, objOf o f)]
   | .dir f cs =>
-    (path, .dir (stampOf o f) (if fin || cs.isEmpty then mtimeOf f else none)) ::
+    (path, .dir (attrOfRec o f) (if fin || cs.isEmpty then mtimeOf f else none)) ::
       Tree.layList fin o path cs
 def Tree.layList (fin : Bool) (o : Opts) (par : RPath) : List Tree → List (RPath × Obj)
   | [] => []
@@ -116,7 +129,7 @@ theorem Tree.expect_leaf (o : Opts) (par : RPath) (f : FileRec) :
 
 theorem Tree.expect_dir (o : Opts) (par : RPath) (f : FileRec) (cs : List Tree) :
     (Tree.dir f cs).expect o par =
-      (par ++ [f.base], .dir (stampOf o f) (mtimeOf f)) :: Tree.expectList o (par ++ [f.base]) cs := by
+      (par ++ [f.base], .dir (attrOfRec o f) (mtimeOf f)) :: Tree.expectList o (par ++ [f.base]) cs := by
   simp [Tree.expect, Tree.expectList, Tree.lay, Tree.hd]
 
 mutual
